@@ -436,6 +436,14 @@ func (c *FnCtx) mergeNormal(outs []Out) []Out {
 	m := base.clone()
 	m.pc = append([]*Term(nil), base.pc[:n]...)
 	m.ret = nil
+	mergeRet := c.keepRet
+	if mergeRet {
+		for _, o := range normal {
+			if len(o.st.ret) != len(base.ret) {
+				return outs
+			}
+		}
+	}
 	extras := make([][]*Term, len(normal))
 	for i, o := range normal {
 		extras[i] = append([]*Term(nil), o.st.pc[n:]...)
@@ -467,6 +475,26 @@ func (c *FnCtx) mergeNormal(outs []Out) []Out {
 			def(i, nt, o.st.vars[obj])
 		}
 		m.vars[obj] = nt
+	}
+	if mergeRet {
+		for k := range base.ret {
+			same := true
+			for _, o := range normal[1:] {
+				if o.st.ret[k].String() != base.ret[k].String() {
+					same = false
+				}
+			}
+			if same {
+				m.ret = append(m.ret, base.ret[k])
+				continue
+			}
+			nt := c.smt.freshConst("mg_ret", base.ret[k].Sort)
+			nt.GoT = base.ret[k].GoT
+			for i, o := range normal {
+				def(i, nt, o.st.ret[k])
+			}
+			m.ret = append(m.ret, nt)
+		}
 	}
 	mergeMap := func(get func(*State) map[string]*Term, prefix string) bool {
 		names := map[string]bool{}
